@@ -645,6 +645,10 @@ pub fn run(ctx: &Ctx) -> PropResult {
         }
         rec.bin("result-directed/no-receiver-found");
     }));
+    // the one non-argument input a setter has: the zone an Offset::Local value resolves to.  It must be the zone file as
+    // it is NOW (also when it changed behind the same name), and no environment may make a setter panic.
+    wls.push(Workload::cases("setters_on_local_values_after_the_zone_changed_behind_the_same_name", ctx.count(400, 10_000), |rec, _, rng| super::localzone::same_name_case(rec, rng, "C15")));
+    wls.push(Workload::cases("setters_on_local_values_under_hostile_process_environments", super::envprobe::env_cases(), |rec, idx, _| super::envprobe::judge_env(rec, "C15", idx)));
     wls.push(Workload::cases("date_and_time_setters", ctx.count(100_000, 3_000_000), |rec, idx, rng| {
         if idx % 2 == 0 {
             let day = match rng.below(4) {
@@ -666,10 +670,10 @@ pub fn run(ctx: &Ctx) -> PropResult {
     wls.push(Workload::cases("setters_on_results_of_earlier_operations(api_walks)", ctx.count(40_000, 1_500_000), |rec, _, rng| super::walk::walk(rec, rng, "C15", super::walk::Family::SetClear)));
     let out = run_workloads(ctx, wls);
     let mut meta = PropMeta::default();
-    meta.rule = "boundary-dense argument tuples: every parameter from {0, 1, max−1, max, max+1, 2^31−1, 2^31, 2^32−1(−1), values whose product with the unit would wrap u32, random, and for from_nanos k·2^32 whole seconds/milliseconds/microseconds/minutes + an in-day remainder}; cartesian grids for from_ymd (23 years x 16 months x 20 days, Date and DateTime), from_hms (Time, DateTime, Offset) and the scalar constructors; pairwise-style random tuples for from_ymdhms; all set_* of DateTime (incl. values at the very ends of the range carrying an offset), Date and Time. Oracle: documented ranges + calendar existence + representability ⇒ Ok with exactly the modelled value; otherwise Err(OutOfRange) — never a panic — and when the message has the shape \"<name> must be in the range a..=b\" the range must exclude the offending component and contain every value of that component the model would accept given the other arguments. Every case non-trivial; distinct by input hash. API walks: setters applied to receivers that are themselves results of earlier operations (clamped month/year shifts, arithmetic, offset changes), accept/refuse judged against the model. The message is read through Display, String::from(&e) and String::from(e) and must be the same text. Notable dates (the 27 leap-second days, the 1582 and 1752 reform gaps, well-known epochs and roll-overs) x hours 0/23/24 x minutes 0/59/60 x seconds 0/58/59/60/61. Date API walks. Result-directed setter cases: the result is drawn within two days (or within one offset) of a range end, inside or outside, the receiver is that reading with the one field replaced (any year for set_year, any month for set_month …), the argument is the result's field value; all ten DateTime setters under any offset, the four Date setters.".into();
+    meta.rule = "boundary-dense argument tuples: every parameter from {0, 1, max−1, max, max+1, 2^31−1, 2^31, 2^32−1(−1), values whose product with the unit would wrap u32, random, and for from_nanos k·2^32 whole seconds/milliseconds/microseconds/minutes + an in-day remainder}; cartesian grids for from_ymd (23 years x 16 months x 20 days, Date and DateTime), from_hms (Time, DateTime, Offset) and the scalar constructors; pairwise-style random tuples for from_ymdhms; all set_* of DateTime (incl. values at the very ends of the range carrying an offset), Date and Time. Oracle: documented ranges + calendar existence + representability ⇒ Ok with exactly the modelled value; otherwise Err(OutOfRange) — never a panic — and when the message has the shape \"<name> must be in the range a..=b\" the range must exclude the offending component and contain every value of that component the model would accept given the other arguments. Every case non-trivial; distinct by input hash. API walks: setters applied to receivers that are themselves results of earlier operations (clamped month/year shifts, arithmetic, offset changes), accept/refuse judged against the model. The message is read through Display, String::from(&e) and String::from(e) and must be the same text. Notable dates (the 27 leap-second days, the 1582 and 1752 reform gaps, well-known epochs and roll-overs) x hours 0/23/24 x minutes 0/59/60 x seconds 0/58/59/60/61. Date API walks. Result-directed setter cases: the result is drawn within two days (or within one offset) of a range end, inside or outside, the receiver is that reading with the one field replaced (any year for set_year, any month for set_month …), the argument is the result's field value; all ten DateTime setters under any offset, the four Date setters. Setters on Offset::Local values after the zone file changed behind the same name (compared with the Fixed twin), and the whole Local battery in child processes started with hostile environments (TZ / TZDIR / LANG / LC_* / HOME / TMPDIR unset, empty, colon, multi-byte, 5000 characters, nonexistent paths): every call must return.".into();
     meta.required_bins = vec![
         "ctor/notable-dates",
-        "date-walk/with-judged-steps","ctor/valid", "ctor/invalid", "setter/valid", "setter/invalid", "setter/result-not-representable", "setter/at-range-end-with-offset", "result-directed/result-just-inside", "result-directed/result-just-outside"];
+        "date-walk/with-judged-steps","ctor/valid", "ctor/invalid", "setter/valid", "setter/invalid", "setter/result-not-representable", "setter/at-range-end-with-offset", "result-directed/result-just-inside", "result-directed/result-just-outside", "same-name/followed-the-file", "environment/child-ok"];
     meta.assumptions = vec!["which parameter an error names when several are invalid, and the wording, are not judged".into()];
     let _ = (TimeUtilities::hour(&Time::default()), OffsetUtilities::get_offset(&Time::default()));
     Ok((meta, out))
